@@ -451,6 +451,20 @@ class SymMatrix(SArr):
     and the class propagates through element-wise arithmetic."""
     __array_priority__ = 10.0
 
+    def __new__(cls, data, ldtype=None, shape=None):
+        if ldtype is None:
+            # np.matrix(data): a 2-D matrix holding a copy of `data`
+            from . import funcs
+            a = funcs._as_sarr(_unlazy(data)).copy()
+            if a.ndim == 1:
+                a = a.reshape((1, -1))
+            if a.ndim != 2:
+                raise ValueError('matrix must be 2-dimensional')
+            r = a.view(SymMatrix)
+            r.ldtype = a.ldtype
+            return r
+        return SArr.__new__(cls, data, ldtype, shape)
+
     def __array_finalize__(self, obj):
         SArr.__array_finalize__(self, obj)
 
